@@ -226,11 +226,13 @@ def run(res):
         inputs.append(("soup", s))
     toks = [c20.parse_tokens(t) for t in st0["tok_go"]]
     j = 0
-    while sum(1 for k, _ in inputs if k == "mutant") < nmut:
+    nm = 0
+    while nm < nmut and j < 50 * nmut:
         i = j % len(progs)
         j += 1
         if toks[i]:
             inputs.append(("mutant", c20.mutate(rng, progs[i], toks[i])))
+            nm += 1
     # a line break (or a stray separator) right after an opening bracket, an operator or a separator of a valid program
     cnt = 0
     j = 0
